@@ -41,7 +41,7 @@ Definition cmd_body (e : env) (c : cfgT) (ld : ldefs) (cmd : command) : M ldefs 
   end.
 
 Definition layer_cmd (cmd : command) : bool :=
-  match cmd with CInit | CKMount _ _ _ _ _ | CKUmount _ => false | _ => true end.
+  match cmd with CInit | CKMount _ _ _ _ _ | CKUmount _ | CEdit _ _ => false | _ => true end.
 
 Lemma run_unfold e c um cmd w : layer_cmd cmd = true ->
   run e c um cmd w =
@@ -133,4 +133,16 @@ Proof.
   destruct (normalize_order (read_layer_files c (w_fs w))) as [o|] eqn:En.
   - exists o. split; [reflexivity|exact R].
   - exfalso. now apply (normalize_total _ Ec).
+Qed.
+
+(* without an installation (base directories / skeleton missing, or the layers do not form a
+   forest) every layer command fails at once and leaves the machine state alone *)
+Lemma run_not_set_up e c um cmd w : layer_cmd cmd = true ->
+  base_set_up c (w_fs w) && check_inheritance (read_layer_files c (w_fs w)) = false ->
+  run e c um cmd w = (Fail, s0_of w).
+Proof.
+  intros Hc Hn. pose proof (run_unfold e c um cmd w Hc) as R. cbv zeta in R.
+  destruct (base_set_up c (w_fs w)) eqn:Eb; [|exact R]. cbn [andb] in Hn.
+  rewrite R. unfold get_layers, find_layers, bind at 1 2, get_fs. cbv zeta. cbn [s_w w_fs].
+  destruct (negb (is_dir (w_fs w) (c_layers c))); [reflexivity|]. rewrite Hn. reflexivity.
 Qed.
